@@ -49,7 +49,7 @@ type explorer struct {
 	// states of the last level that were only counted (their pinsets are not
 	// kept: nothing is applied from them)
 	countedOnly int
-	sec   *ev.Section
+	sec         *ev.Section
 }
 
 func (e *explorer) history(i int) []string {
